@@ -208,6 +208,38 @@ def list_kw_text(kw: str, inv: bool, k: int) -> bool:
     return got == sorted(want)
 
 
+def repeated_kw(kw: str, inv: bool, a: int, b: int, c: int) -> bool:
+    """A keyword segment evaluated for several collections in one query (wildcard in front), and one YAMLPath
+    object used for two queries, answers each evaluation like the first."""
+    from yamlpath import YAMLPath
+    def aoh(x, y):
+        return cseq(cmap(("v", x)), cmap(("v", y)), cmap(("v", x)))
+    s1, s2 = aoh(a, b), aoh(b, c)
+    doc = cmap(("stores", cmap(("one", cmap(("items", s1))), ("two", cmap(("items", s2))))))
+    path = YAMLPath("stores.*.items[" + ("!" if inv else "") + kw + "(v)]")
+    proc = Processor(LOG, doc)
+
+    def want_for(x, y):
+        vals = [x, y, x]
+        if kw == "unique":
+            return [i for i, v in enumerate(vals) if (_count(vals, v) > 1) == inv]
+        if kw == "distinct":
+            return [i for i, v in enumerate(vals) if v not in vals[:i]]
+        return _want_extreme(vals, kw == "max", inv)
+    want = [(id(s1), i) for i in sorted(want_for(a, b))] + [(id(s2), i) for i in sorted(want_for(b, c))]
+    for _round in range(2):
+        try:
+            got = [(id(nc.parent), nc.parentref) for nc in proc.get_nodes(path, mustexist=True)]
+        except YAMLPathException:
+            got = []
+        g1 = sorted(x for x in got if x[0] == id(s1))
+        g2 = sorted(x for x in got if x[0] == id(s2))
+        note(round=_round, observed_one=[x[1] for x in g1], observed_two=[x[1] for x in g2])
+        if g1 + g2 != [w for w in want if w[0] == id(s1)] + [w for w in want if w[0] == id(s2)] or len(got) != len(want):
+            return False
+    return True
+
+
 def has_child_hash(inv: bool, has: bool, a: int) -> bool:
     """h[has_child(v)] on a single hash yields the hash itself exactly when it has (lacks, inverted) the key."""
     h = cmap(("n", 1))
@@ -328,6 +360,13 @@ def shards(tier, seed):
             out.append(shard(PID, "text/%s%s" % ("not_" if inv else "", kw), "harness.c13", "list_kw_text(%r, %r, k)" % (kw, inv),
                              [("k", "int")], ["0 <= k < 125"], family="text", budget=900, kind="S",
                              desc="l[%s%s()] over three text values from a pool of 5 (selector)" % ("!" if inv else "", kw)))
+    for kw, invs in (("unique", (False, True)), ("distinct", (False,)), ("max", (False,)), ("min", (True,))):
+        for inv in invs:
+            out.append(shard(PID, "repeated/%s%s" % ("not_" if inv else "", kw), "harness.c13",
+                             "repeated_kw(%r, %r, a, b, c)" % (kw, inv), [("a", "int"), ("b", "int"), ("c", "int")],
+                             ["-1 <= a <= 1 and -1 <= b <= 1 and -1 <= c <= 1"], family="repeated", budget=900,
+                             desc="stores.*.items[%s%s(v)] over two Arrays-of-Hashes, asked twice with one YAMLPath object" % (
+                                 "!" if inv else "", kw)))
     out.append(shard(PID, "has_child/hash", "harness.c13", "has_child_hash(inv, has, a)",
                      [("inv", "bool"), ("has", "bool"), ("a", "int")], ["-9 <= a <= 9"], family="has_child", budget=300,
                      desc="h[has_child(v)] / inverted on one hash"))
